@@ -25,7 +25,8 @@ EXTENDS Expire, Json
 
 CONSTANTS MarginP,   \* a deadline at least this far after the probe: surely still served
           MarginA,   \* a deadline at least this far before the probe: surely gone (>= sweep period + slack of ExpireTrace)
-          Horizon    \* deadlines within this of the last command are waited for
+          Horizon,   \* deadlines within this of the last command are waited for
+          GenOps     \* the commands the breadth-first generator uses (a subset of WriteOps)
 
 VARIABLES hist, old, hold
 gvars == <<now, st, due, stored, shadow, log, nops, ev, hist, old, hold>>
@@ -55,7 +56,7 @@ GSweep == /\ Sweep
           /\ hold' = {e \in hold : e.hi > now}
           /\ UNCHANGED hist
 
-GNext == (\E c \in Commands : GDo(c)) \/ GTick \/ GSweep
+GNext == (\E c \in {d \in Commands : d.op \in GenOps} : GDo(c)) \/ GTick \/ GSweep
 GenSpec == GInit /\ [][GNext]_gvars
 GenView == <<now, st, due, stored, shadow, nops, ev, old, hold>>
 
